@@ -13,7 +13,17 @@ def planner_summary(repo, rel="mixed.py", name="mixed_step_memoization"):
         return None
     it = Interp(fn, finalize_havoc=False, record_calls=())
     it.DEFAULT_PART = ()
-    it.partvars = ("m.0",)
+    # partition on the kind component of every tuple-valued local that holds a (kind, length, cost) candidate
+    import ast as _ast
+    cands = []
+    for n in _ast.walk(fn):
+        if isinstance(n, _ast.Assign) and isinstance(n.value, _ast.Tuple) and n.value.elts \
+                and isinstance(n.value.elts[0], _ast.Attribute) and isinstance(n.value.elts[0].value, _ast.Name) \
+                and n.value.elts[0].value.id == "StepType":
+            for t in n.targets:
+                if isinstance(t, _ast.Name) and t.id + ".0" not in cands:
+                    cands.append(t.id + ".0")
+    it.partvars = tuple(cands)
     try:
         it.run()
     except Exception:
